@@ -107,7 +107,9 @@ func oracleC13(r *Result) ([]Violation, bool) {
 		if e.K == "q" {
 			for _, sn := range e.Snap {
 				if sn.Blocked {
-					s.add(e.T, "status-blocked", "%s: Status() does not return", sn.I)
+					if !sn.Fine {
+						s.add(e.T, "status-blocked", "%s: Status() does not return", sn.I)
+					}
 				}
 			}
 		}
